@@ -33,6 +33,9 @@ pub struct BCase {
     /// per-dimension domain indices when they differ between dimensions (else empty: `dom` everywhere)
     doms: Vec<usize>,
     xs: Vec<f64>,
+    /// the same operator instance was initialised and executed on the same state for another problem
+    /// (other dimension, other bounds) before
+    after_other: bool,
 }
 impl BCase {
     fn bounds(&self, i: usize) -> (f64, f64) {
@@ -47,7 +50,7 @@ impl BCase {
 fn coordinates(a: f64, b: f64, thorough: bool) -> Vec<f64> {
     let w = b - a;
     let mut v = vec![a, b, next_up(a), next_down(a), next_up(b), next_down(b), a + w / 2.0, a + w / 3.0, a + 0.9 * w];
-    let ks: &[f64] = if thorough { &[0.25, 0.5, 1.0, 1.5, 2.0, 3.0, 10.0, 1e3, 2.5, 7.0, 100.0, 0.999, 1.001, 1e5 + 0.25, 70000.5, 1e6 + 0.5, 3e6] } else { &[0.25, 0.5, 1.0, 1.5, 2.0, 3.0, 10.0, 1e3, 1e5 + 0.25] };
+    let ks: &[f64] = if thorough { &[0.25, 0.5, 1.0, 1.5, 2.0, 3.0, 10.0, 1e3, 2.5, 7.0, 100.0, 0.999, 1.001, 1e5 + 0.25, 70000.5, 1e6 + 0.5, 3e6, 2.0e8 + 0.75, 1.0e9 + 0.25] } else { &[0.25, 0.5, 1.0, 1.5, 2.0, 3.0, 10.0, 1e3, 1e5 + 0.25, 2.0e8 + 0.75] };
     for k in ks {
         v.push(a - k * w);
         v.push(b + k * w);
@@ -60,17 +63,17 @@ pub fn boundary_cases(thorough: bool) -> Vec<BCase> {
     for op in 0..4 {
         for (di, (a, b)) in DOMAINS.iter().enumerate() {
             for x in coordinates(*a, *b, thorough) {
-                out.push(BCase { op, dom: di, doms: vec![], xs: vec![x] });
+                out.push(BCase { op, dom: di, doms: vec![], xs: vec![x], after_other: false });
             }
             // mixed 3-d solutions: inside, below, above in one vector
             let w = b - a;
-            out.push(BCase { op, dom: di, doms: vec![], xs: vec![a + w / 2.0, a - w, b + 1.5 * w] });
-            out.push(BCase { op, dom: di, doms: vec![], xs: vec![*b, *a, b + w / 4.0] });
+            out.push(BCase { op, dom: di, doms: vec![], xs: vec![a + w / 2.0, a - w, b + 1.5 * w], after_other: false });
+            out.push(BCase { op, dom: di, doms: vec![], xs: vec![*b, *a, b + w / 4.0], after_other: false });
         }
         // domains that differ between dimensions: every coordinate is repaired against its own bounds
-        out.push(BCase { op, dom: 0, doms: vec![0, 2, 3], xs: vec![5.0, 0.5, -2.0] });
-        out.push(BCase { op, dom: 0, doms: vec![2, 1, 1, 0], xs: vec![-4.0, -4.0, 1.5, -1.5] });
-        out.push(BCase { op, dom: 0, doms: vec![3, 1], xs: vec![0.5, 0.5] });
+        out.push(BCase { op, dom: 0, doms: vec![0, 2, 3], xs: vec![5.0, 0.5, -2.0], after_other: false });
+        out.push(BCase { op, dom: 0, doms: vec![2, 1, 1, 0], xs: vec![-4.0, -4.0, 1.5, -1.5], after_other: false });
+        out.push(BCase { op, dom: 0, doms: vec![3, 1], xs: vec![0.5, 0.5], after_other: false });
         // long solutions (beyond any block size a vectorised repair would use) with a different domain in
         // every dimension: inside, below and above coordinates in turn
         for len in [9usize, 11, 16, 17, 33] {
@@ -85,8 +88,17 @@ pub fn boundary_cases(thorough: bool) -> Vec<BCase> {
                     }
                 })
                 .collect();
-            out.push(BCase { op, dom: 0, doms, xs });
+            out.push(BCase { op, dom: 0, doms, xs, after_other: false });
         }
+    }
+    // the same state used for another problem first (a second run of a configuration on one state)
+    for op in 0..4 {
+        for (di, (a, b)) in DOMAINS.iter().enumerate() {
+            let w = b - a;
+            out.push(BCase { op, dom: di, doms: vec![], xs: vec![a + w / 2.0, a - w, b + 1.5 * w], after_other: true });
+            out.push(BCase { op, dom: di, doms: vec![], xs: vec![a - 0.25 * w, a + w / 4.0], after_other: true });
+        }
+        out.push(BCase { op, dom: 0, doms: vec![2, 1, 1, 0], xs: vec![-4.0, -4.0, 1.5, -1.5], after_other: true });
     }
     out
 }
@@ -98,7 +110,14 @@ fn run_boundary(c: &BCase) -> BObs {
     let problem = RealP { name: "b".into(), dom: (0..c.xs.len()).map(|i| c.bounds(i).0..c.bounds(i).1).collect(), kind: FKind::Sphere, instr: Instr::new() };
     let comp = make_boundary(c.op);
     let ind = Individual::<RealP>::new(c.xs.clone(), so(1.0));
-    let mut st = state_with::<RealP>(vec![vec![ind]]);
+    let mut st = state_with::<RealP>(vec![vec![ind.clone()]]);
+    if c.after_other {
+        let d = (c.xs.len() - 1).max(1);
+        let other = RealP { name: "other".into(), dom: (0..d).map(|_| 10.0..20.0).collect(), kind: FKind::Sphere, instr: Instr::new() };
+        *st.populations_mut().current_mut() = vec![Individual::<RealP>::new(vec![25.0; d], so(1.0))];
+        let _ = run_component(comp.as_ref(), &other, &mut st);
+        *st.populations_mut().current_mut() = vec![ind];
+    }
     let r = run_component(comp.as_ref(), &problem, &mut st).map_err(|e| format!("{:#}", e));
     let once: Vec<f64> = pops_of(&st)[0][0].solution().clone();
     let ok_shape = pops_of(&st).len() == 1 && pops_of(&st)[0].len() == 1;
@@ -129,9 +148,9 @@ fn xclass(x: f64, a: f64, b: f64) -> &'static str {
 fn check_boundary(c: &BCase, out: &Outcome<BObs>) -> Option<(String, String)> {
     let cls: Vec<&str> = c.xs.iter().enumerate().map(|(i, x)| xclass(*x, c.bounds(i).0, c.bounds(i).1)).collect();
     let cl = if cls.len() == 1 { cls[0].to_string() } else if c.doms.is_empty() { "mixed-vector".to_string() } else { "mixed-domains".to_string() };
-    let head = format!("C14 op={} x={}", OPS[c.op], cl);
+    let head = format!("C14 op={} x={}{}", OPS[c.op], cl, if c.after_other { " state-used-for-another-problem-before" } else { "" });
     let alldoms: Vec<(f64, f64)> = (0..c.xs.len()).map(|i| c.bounds(i)).collect();
-    let ctx = |w: String| format!("{} on domain {:?} with solution {:?}: {}", OPS[c.op], alldoms, c.xs, w);
+    let ctx = |w: String| format!("{} on domain {:?} with solution {:?}{}: {}", OPS[c.op], alldoms, c.xs, if c.after_other { " (the same operator instance was initialised and executed on this state before, for a problem of another dimension with domain [10, 20))" } else { "" }, w);
     let (r, once, twice, shape) = match out {
         Outcome::Done(o) => o,
         Outcome::Panic(m) => return Some((format!("{} panic", head), ctx(format!("panicked: {}", m.chars().take(160).collect::<String>())))),
